@@ -12,6 +12,7 @@ import (
 	"strconv"
 	"sync"
 	"testing"
+	"time"
 
 	"pgregory.net/rapid"
 )
@@ -165,8 +166,29 @@ func writeFail(id, part, test string, caseJSON []byte, err error) string {
 	return p
 }
 
-// safeCheck runs check and converts a panic into an error.
+// caseTimeout is the wall-clock watchdog for a single case: a case that does
+// not return is reported as a hang (cases normally take well under 10 ms).
+func caseTimeout() time.Duration {
+	if v, err := strconv.Atoi(os.Getenv("VERIF_CASE_TIMEOUT")); err == nil && v > 0 {
+		return time.Duration(v) * time.Second
+	}
+	return 120 * time.Second
+}
+
+var watchdogCtx struct {
+	id, part, test string
+}
+
+// safeCheck runs check and converts a panic into an error.  A watchdog turns a
+// case that never returns into a recorded failure and ends the process.
 func safeCheck[C any](check func(C, *Obs) error, c C, o *Obs) (err error) {
+	wd := time.AfterFunc(caseTimeout(), func() {
+		js, _ := json.Marshal(c)
+		writeFail(watchdogCtx.id, watchdogCtx.part, watchdogCtx.test, js, fmt.Errorf("HANG: the case did not finish within %v (a call into the library never returned)", caseTimeout()))
+		fmt.Fprintln(os.Stderr, "HANG: case did not finish; see fail file")
+		os.Exit(1)
+	})
+	defer wd.Stop()
 	defer func() {
 		if r := recover(); r != nil {
 			err = fmt.Errorf("PANIC: %v\n%s", r, debug.Stack())
@@ -180,6 +202,7 @@ func safeCheck[C any](check func(C, *Obs) error, c C, o *Obs) (err error) {
 // JSON each time it fails; rapid re-executes the shrunk case last, so the file
 // left behind is the minimal reproduction.
 func RunProp[C any](t *testing.T, id, part string, gen func(*rapid.T) C, check func(C, *Obs) error) {
+	watchdogCtx.id, watchdogCtx.part, watchdogCtx.test = id, part, t.Name()
 	st := newStats(id, part)
 	defer st.flush()
 
@@ -239,6 +262,7 @@ func RunProp[C any](t *testing.T, id, part string, gen func(*rapid.T) C, check f
 // RunEnum is RunProp for a finite enumeration: enum yields every case of the
 // shard (the caller shards by VERIF_SHARD_INDEX / VERIF_NSHARDS).
 func RunEnum[C any](t *testing.T, id, part string, enum func(yield func(C) bool), check func(C, *Obs) error) {
+	watchdogCtx.id, watchdogCtx.part, watchdogCtx.test = id, part, t.Name()
 	st := newStats(id, part)
 	defer st.flush()
 	runOne := func(c C) error {
